@@ -2012,6 +2012,10 @@ class Compiler:
     def _get_translation_identifiers(self, name):
         assert self._translations
         prefix = str(id(self._translations[-1])).replace('-', '_')
+        # Distinct names get distinct variables ("a-b" is not "a_b").
+        name = re.sub(
+            r'[^A-Za-z0-9]', lambda m: '_%x_' % ord(m.group()), name
+        )
         stream = identifier("stream_%s" % prefix, name)
         append = identifier("append_%s" % prefix, name)
         return stream, append
